@@ -440,7 +440,7 @@ func (crashpoint) Units(tier string) int {
 func (crashpoint) Describe() core.EngineInfo {
 	return core.EngineInfo{
 		Level: "fault_enumeration",
-		Rule: "a unit is one generated program (2-10 functions and methods calling each other through loops, branches, switches, function values and bounded recursion, one statement per line, LF / CRLF / mixed line endings, a fault site per run-time fault kind); a clean run counts the K host queries it makes; then the program is re-executed once per k in 1..K with exactly the k-th query poisoned " +
+		Rule: "a unit is one generated program (2-10 functions and methods calling each other through loops, branches, switches, function values and bounded recursion, one statement per line, LF / CRLF / mixed line endings, optional leading blank lines and satisfied //go:build lines, one or two files of one package or a second package under a three-element import path, sorts with script comparators and an earlier unrelated failed host call on the same VM, a fault site per run-time fault kind); a clean run counts the K host queries it makes; then the program is re-executed once per k in 1..K with exactly the k-th query poisoned " +
 			"(out-of-range index, zero divisor, nil struct/map/function selector, panic flag, failing native), each with the optimizer on and off, entered through Call or Eval. A case is one such execution. The expected (function, line) chain comes from a shadow call stack kept by host natives, never from goatlang. " +
 			"non-trivial = the poisoned query fired; distinct = (fault kind, faulting opcode, call depth, enclosing constructs, optimizer, entry)",
 		Real:       []string{"goatlang compiler positions (newPos, peephole fusion), VM backtrace (mkFunc push/pop), error builder (btErr), via Load/Call/Eval"},
